@@ -47,6 +47,9 @@ pub struct Reporter {
     known: BTreeMap<String, String>,
     /// prefix patterns (written `prefix*` in the file) -> description
     known_prefix: Vec<(String, String)>,
+    /// recorded number of failing cases per exactly listed signature on the unchanged tree, for this tier
+    /// (KNOWN_COUNTS.json; None = no record for this property and tier)
+    ceilings: Option<BTreeMap<String, u64>>,
     fails: Mutex<BTreeMap<String, FailRec>>,
 }
 
@@ -97,6 +100,11 @@ impl Reporter {
                 }
             }
         }
+        let ceilings = std::fs::read_to_string(format!("{}/KNOWN_COUNTS.json", VERIF_ROOT))
+            .ok()
+            .and_then(|t| serde_json::from_str::<Value>(&t).ok())
+            .and_then(|v| v.get(prop).and_then(|p| p.get(tier.as_str())).and_then(|m| m.as_object().cloned()))
+            .map(|m| m.into_iter().filter_map(|(k, v)| v.as_u64().map(|n| (k, n))).collect::<BTreeMap<String, u64>>());
         Reporter {
             prop: prop.to_string(),
             tier,
@@ -105,8 +113,15 @@ impl Reporter {
             start: Instant::now(),
             known,
             known_prefix,
+            ceilings,
             fails: Mutex::new(BTreeMap::new()),
         }
+    }
+
+    /// replaying one case says nothing about how many inputs fail
+    pub fn without_ceilings(mut self) -> Self {
+        self.ceilings = None;
+        self
     }
 
     pub fn elapsed(&self) -> f64 {
@@ -165,11 +180,21 @@ impl Reporter {
         let fails = self.fails.lock().unwrap();
         let mut known_hits: BTreeMap<String, (String, u64, u64)> = BTreeMap::new(); // listed sig -> (desc, cases, sigs)
         let mut new: Vec<(&String, &FailRec)> = Vec::new();
+        // known findings that fail on more inputs than recorded for the unchanged tree: (signature, recorded, now)
+        let mut grown: Vec<(&String, &FailRec, u64)> = Vec::new();
         for (sig, rec) in fails.iter() {
             if let Some((listed, desc)) = self.lookup_known(sig) {
-                let e = known_hits.entry(listed).or_insert((desc, 0, 0));
+                let e = known_hits.entry(listed.clone()).or_insert((desc, 0, 0));
                 e.1 += rec.count;
                 e.2 += 1;
+                if &listed == sig {
+                    if let Some(c) = &self.ceilings {
+                        let recorded = c.get(sig).copied().unwrap_or(0);
+                        if rec.count > recorded {
+                            grown.push((sig, rec, recorded));
+                        }
+                    }
+                }
             } else {
                 new.push((sig, rec));
             }
@@ -182,8 +207,32 @@ impl Reporter {
                     }
                     continue;
                 }
-                let k = if self.is_known(sig) { "known" } else { "NEW  " };
+                let k = if grown.iter().any(|g| g.0 == sig) {
+                    "GROWN"
+                } else if self.is_known(sig) {
+                    "known"
+                } else {
+                    "NEW  "
+                };
                 println!("{} n={:<8} sig={} :: {}", k, rec.count, sig, rec.detail);
+            }
+        }
+        // development helper: write the simplest witness of the listed findings as replay files (committed under replays/known)
+        if let Ok(dir) = std::env::var("VERIF_WRITE_KNOWN_REPLAYS") {
+            let max: usize = std::env::var("VERIF_WRITE_KNOWN_REPLAYS_MAX").ok().and_then(|v| v.parse().ok()).unwrap_or(8);
+            let mut hits: Vec<(&String, &FailRec)> = fails.iter().filter(|(sig, _)| self.is_known(sig)).collect();
+            hits.sort_by_key(|(_, r)| r.ord);
+            // at most one witness per listed entry (prefix patterns) and `max` per property, simplest first
+            let mut seen = std::collections::BTreeSet::new();
+            let pdir = format!("{}/{}", dir, self.prop);
+            let _ = std::fs::create_dir_all(&pdir);
+            for (sig, rec) in hits {
+                let listed = self.lookup_known(sig).map(|x| x.0).unwrap_or_default();
+                if seen.len() >= max || !seen.insert(listed.clone()) {
+                    continue;
+                }
+                let doc = json!({"property": self.prop, "tier": self.tier.as_str(), "signature": sig, "listed_as": listed, "detail": rec.detail, "case": rec.case});
+                let _ = std::fs::write(format!("{}/{:016x}.json", pdir, fnv64(sig.as_bytes())), serde_json::to_string_pretty(&doc).unwrap() + "\n");
             }
         }
         for (sig, (desc, cases, _)) in known_hits.iter() {
@@ -193,6 +242,42 @@ impl Reporter {
             );
         }
         let mut nviol = 0u64;
+        if !grown.is_empty() {
+            let dir = format!("{}/replays/new/{}", VERIF_ROOT, self.prop);
+            let _ = std::fs::create_dir_all(&dir);
+            grown.sort_by_key(|(_, r, _)| r.ord);
+            for (i, (sig, rec, recorded)) in grown.iter().enumerate() {
+                nviol += 1;
+                if i >= 20 {
+                    continue;
+                }
+                let gsig = format!("more-cases-than-recorded|{}", sig);
+                let path = format!("{}/{:016x}.json", dir, fnv64(gsig.as_bytes()));
+                let detail = format!(
+                    "the recorded finding with this signature fails on {} inputs here; on the unchanged tree it fails on {} ({} tier, KNOWN_COUNTS.json): further inputs fail in the same way. Simplest failing input: {}",
+                    rec.count,
+                    recorded,
+                    self.tier.as_str(),
+                    rec.detail
+                );
+                let doc = json!({
+                    "property": self.prop,
+                    "tier": self.tier.as_str(),
+                    "signature": gsig,
+                    "cases_with_this_signature": rec.count,
+                    "cases_recorded_on_unchanged_tree": recorded,
+                    "detail": detail,
+                    "case": rec.case,
+                });
+                let _ = std::fs::write(&path, serde_json::to_string_pretty(&doc).unwrap());
+                println!("VIOLATION property={} replay={}", self.prop, path);
+                println!("  signature: {}", gsig);
+                println!("  detail: {}", detail);
+            }
+            if grown.len() > 20 {
+                println!("  ... and {} further known findings with more failing inputs than recorded", grown.len() - 20);
+            }
+        }
         if !new.is_empty() {
             let dir = format!("{}/replays/new/{}", VERIF_ROOT, self.prop);
             let _ = std::fs::create_dir_all(&dir);
